@@ -218,7 +218,7 @@ def s5(ck, an):
         in_loop = any(isinstance(p, (ast.For, ast.While)) for p in parents(c) if p is not fa.f.node)
         ck.check(not in_loop, "ORD", "S5.checkpoint-after-loop", subj, fa.loc(c), "the checkpoint is outside the execution loop", "the checkpoint is taken inside the execution loop", construct=stmt_text(c))
         loops = [fa.cfg.node_of(next(p for p in parents(t) if isinstance(p, ast.For)).iter) for t in tr if any(isinstance(p, ast.For) for p in parents(t))]
-        ok = all(fa.cfg.dominates(l.id, fa.node_of(c).id) for l in loops if l is not None) and all((c.lineno, c.col_offset) > (t.lineno, t.col_offset) for t in tr)
+        ok = all(fa.cfg.dominates(l.id, fa.node_of(c).id) for l in loops if l is not None) and all(fa.reachable_from(t, c) and not fa.reachable_from(c, t) for t in tr)
         ck.check(ok, "ORD", "S5.checkpoint-last", subj, fa.loc(c), "the checkpoint follows the execution loop", "the checkpoint can be reached before the trades are executed", construct=stmt_text(c))
 
 
